@@ -45,7 +45,7 @@ def run(ctx):
             break
     # targeted: a foreign directory whose name only starts like a group name (kept by hand: "<date>.old") lies in the root while the storage
     # goes over the limit: it is an unlistable entry - nothing may be deleted, least of all the directory itself; once it is gone, rotation resumes
-    for suffix, note in ([(".old", True), ("-copy", False)] if not ctx.violations else []):
+    for suffix, note in ([(".old", True), ("-copy", False), ("\u0662\u0660\u0662\u0660.\u0660\u0661.\u0660\u0662", True)] if not ctx.violations else []):
         with slevel.Sandbox("c07f") as sb:
             H = runs.History(ctx, sb, rng, "C07", 1, 1)
             H.w.populate(nfiles=3)
@@ -53,6 +53,8 @@ def run(ctx):
             H.now = runs.BASE + 3600
             H.run(nedits=0)
             foreign = os.path.join(H.w.st, time.strftime("%Y.%m.%d", time.gmtime(runs.BASE - 500 * 86400)) + suffix)
+            if not suffix.startswith((".", "-")):
+                foreign = os.path.join(H.w.st, suffix)         # a date in decimal digits that are not ASCII: sorts after every real group
             os.mkdir(foreign, 0o700)
             if note:
                 open(os.path.join(foreign, ".note"), "w").close()
